@@ -83,6 +83,26 @@ def cases_from_histories(hists, prefix):
     return cases
 
 
+def directed_histories():
+    """freshness of every copying operator over nested arrays that are empty / non-empty at copy time and are
+    changed in place afterwards (through the original nested array)"""
+    lit = lambda v: {"k": "lit", "v": v}
+    var = lambda x: {"k": "var", "x": x}
+    out = []
+    for inner in ([], [0]):
+        for fresh in ("copy", "concat", "apply", "filter", "selectRange", "alias"):
+            for mut in ({"op": "pushBack", "x": "c", "val": lit(5)}, {"op": "set", "x": "c", "i": 0, "val": lit(7)}, {"op": "resize", "x": "c", "n": 2}):
+                h = [{"op": "new", "x": "c", "lits": inner}, {"op": "new", "x": "a", "lits": [1]}, {"op": "pushBack", "x": "a", "val": var("c")}]
+                f = {"op": fresh, "x": "b", "y": "a"}
+                if fresh == "concat":
+                    f["z"] = "a"
+                if fresh == "selectRange":
+                    f.update(i=0, n=2)
+                h += [f, mut, {"op": "pushBack", "x": "a", "val": lit(7)}]
+                out.append(h)
+    return out
+
+
 def random_histories(rng, n, length):
     """Deeper random histories (thorough tier). Generated blindly; operations that the spec does not
     enable in the reached state are dropped by replaying the candidate through the real VM's type
@@ -183,6 +203,7 @@ def run(rep, tier, seed, replay):
         # ---- 3. deeper random histories
         nrand, length = (2000, 8) if tier == "quick" else (40000, 12)
         cases += cases_from_histories(random_histories(rng, nrand, length), "r")
+        cases += cases_from_histories(directed_histories(), "d")
     rep.evaluations = len(cases)
     rep.rule = ("every transition (state, op) of the bounded Heap_MC state graph replayed as the shortest history reaching it, "
                 "plus seeded random histories; non-trivial = history with >=2 operations; distinct by operation sequence")
